@@ -2,6 +2,7 @@
 package c14
 
 import (
+	"context"
 	"crypto/ed25519"
 	"crypto/rand"
 	"crypto/tls"
@@ -9,6 +10,8 @@ import (
 	"encoding/base64"
 	"errors"
 	"fmt"
+	"github.com/hashicorp/nodeenrollment/protocol"
+	"github.com/hashicorp/nodeenrollment/registration"
 	"github.com/hashicorp/nodeenrollment/storage/file"
 	"net"
 	"path/filepath"
@@ -79,7 +82,19 @@ func newEnv(t vkit.TB) *env {
 		r := vkit.MintRoot(time.Now().Add(-time.Hour), time.Now().Add(time.Hour))
 		base = &tls.Config{Certificates: []tls.Certificate{{Certificate: [][]byte{r.Cert.Raw}, PrivateKey: r.Priv}}}
 	}
-	e := &env{w: w, rig: vkit.NewRig(w, vkit.RigConfig{BaseTLS: base}), node: vkit.NewActor("honest"), pathIDs: pathIDs}
+	// every fourth listener has an application-supplied fetch function that answers
+	// "not authorized" with a nil response (the listener accepts both that and an empty one)
+	var fetchFn protocol.FetchCredsFn
+	if envCounter%4 == 3 {
+		fetchFn = func(ctx context.Context, st nodeenrollment.Storage, req *types.FetchNodeCredentialsRequest, opt ...nodeenrollment.Option) (*types.FetchNodeCredentialsResponse, error) {
+			resp, err := registration.FetchNodeCredentials(ctx, st, req, opt...)
+			if err == nil && resp != nil && len(resp.EncryptedNodeCredentials) == 0 {
+				return nil, nil
+			}
+			return resp, err
+		}
+	}
+	e := &env{w: w, rig: vkit.NewRig(w, vkit.RigConfig{BaseTLS: base, FetchFn: fetchFn}), node: vkit.NewActor("honest"), pathIDs: pathIDs}
 	if err := w.Enroll(e.node); err != nil {
 		t.Fatalf("enroll: %v", err)
 	}
